@@ -168,6 +168,8 @@ pub enum Profile {
     Flushy,
     /// partial writes over backing-provided and compressed clusters (C10)
     Cow,
+    /// writes/discards with frequent flush + fsync pairs (C04, C05)
+    Crashy,
 }
 
 pub fn pick_slice(rng: &mut Rng, bsb: u8, cb: usize, allow_default: bool) -> Option<(u8, usize)> {
@@ -332,6 +334,12 @@ pub fn built_layouts(seed: u64, id: usize, kind: &str) -> (crate::build::Layout,
     let mut rng = Rng::derive(seed, 2, id as u64);
     let with_back = kind.contains("+back");
     let mut top = crate::build::gen_layout(&mut rng, with_back, true);
+    if kind.starts_with("overlay") {
+        // a fresh overlay: nothing allocated, everything comes from the backing image
+        for s in top.states.iter_mut() {
+            *s = crate::build::GState::Unalloc;
+        }
+    }
     let back = if with_back {
         let mut b = crate::build::gen_layout(&mut rng, false, true);
         if rng.chance(3, 4) && b.cb != top.cb {
@@ -385,6 +393,9 @@ pub fn case_images(case: &Case) -> Result<CaseImages, String> {
     let mut comp = Vec::new();
     for (o, t) in &bt.comp {
         comp.push(format!("top {} {}", o, t));
+    }
+    for c in &bt.prealloc {
+        comp.push(format!("prealloc {} 0", c));
     }
     let spc_top = (1usize << top.cb) / SECTOR;
     let nsec = (top.size as usize) / SECTOR;
@@ -483,6 +494,23 @@ pub fn gen_ops(rng: &mut Rng, c: &mut Case, profile: Profile, nops: usize) {
                 85..=96 => Op::Reopen { bsb: rng.range(9, 12.min(c.cb as u64)) as u8, l2: None, rb: None },
                 _ => Op::Fsync,
             },
+            Profile::Crashy => match r {
+                0..=49 => {
+                    let (off, len) = gen_range(&mut rng, &*c, 4);
+                    Op::Write { off, len, tok }
+                }
+                50..=64 => {
+                    let (off, len) = gen_range(&mut rng, &*c, 4);
+                    Op::Discard { off, len }
+                }
+                65..=72 => {
+                    let (off, len) = gen_range(&mut rng, &*c, 4);
+                    Op::Read { off, len }
+                }
+                73..=88 => Op::Flush,
+                89..=92 => Op::Shrink,
+                _ => Op::Fsync,
+            },
             Profile::Cow => match r {
                 0..=54 => {
                     // sub-cluster and straddling writes
@@ -575,6 +603,18 @@ pub fn gen_ops(rng: &mut Rng, c: &mut Case, profile: Profile, nops: usize) {
     }
     if profile == Profile::Validate && rng.chance(1, 3) {
         c.rdonly = true;
+    }
+    if profile == Profile::Crashy {
+        // a sync point is a flush_meta immediately followed by fsync_range
+        let mut ops = Vec::new();
+        for op in c.ops.drain(..) {
+            let is_flush = op == Op::Flush;
+            ops.push(op);
+            if is_flush {
+                ops.push(Op::Fsync);
+            }
+        }
+        c.ops = ops;
     }
 }
 
@@ -1027,6 +1067,30 @@ pub fn log_lines(files: &[SimFile]) -> Vec<String> {
                 r.op,
                 r.failed as u8
             ));
+        }
+    }
+    v
+}
+
+/// the top file's modifying requests and syncs with payloads, for crash-state construction
+pub fn crash_lines(files: &[SimFile]) -> Vec<String> {
+    let mut v = Vec::new();
+    let st = files[0].0.borrow();
+    for r in &st.log {
+        if r.failed {
+            continue;
+        }
+        match r.kind {
+            Kind::Write => v.push(format!(
+                "W {} {} {} {}",
+                r.op,
+                r.off,
+                r.len,
+                hex(r.payload.as_ref().map(|p| &p[..]).unwrap_or(&[]))
+            )),
+            Kind::Punch => v.push(format!("Z {} {} {}", r.op, r.off, r.len)),
+            Kind::Sync => v.push(format!("S {}", r.op)),
+            Kind::Read => {}
         }
     }
     v
